@@ -24,7 +24,7 @@ func init() {
 
 func runC09(c *Ctx) {
 	p := c.Progs["mod"]
-	c.Rule("C09.Y", "compatibility with the party that is not changed with this code: the cached request keeps the field the asserted user travels in", 2)
+	c.Rule("C09.Y", "compatibility with the party that is not changed with this code: the cached request keeps the field the asserted user travels in", 1)
 	ruleGobFieldsStable(c, p, "C09.Y", "memcache entries written by instances of the other build decode with that field empty: the agent is told an empty end-user identity for the request and forwards that", "app/types.Request")
 	ruleStoredEntityLoadable(c, p, "C09.Y", "app/store.storedRequest")
 	c.Rule("C09.S", "the asserted identity replaces, never joins, client input", 2)
